@@ -8,7 +8,9 @@ PID = "C15"
 FTXT = {"l1": 'request.listener == "l1"', "p80": "request.target.port == 80", "udp": 'request.feature == "UdpForward"',
         "syntax": "request.listener == ", "illtyped": "request.listener + 1"}
 SWAPLISTS = {1: [("l1", "A"), ("none", "B")], 2: [("p80", "B"), ("udp", "deny"), ("none", "A")], 3: [("none", "deny")],
-             4: [("syntax", "A"), ("none", "B")], 5: [("none", "A"), ("illtyped", "B")], 6: [("none", "A"), ("l1", "Zed")]}
+             4: [("syntax", "A"), ("none", "B")], 5: [("none", "A"), ("illtyped", "B")], 6: [("none", "A"), ("l1", "Zed")],
+             # 7 / 8: neither denies a TCP request; a prefix of one plus the tail of the other does (MCProxy V7 / V8)
+             7: [("udp", "deny")] * 3 + [("none", "A")], 8: [("none", "B")] + [("udp", "deny")] * 3 + [("none", "deny")]}
 
 
 def rule_json(r):
@@ -172,6 +174,34 @@ def run(tier, t0):
             os.makedirs(os.path.dirname(keep), exist_ok=True)
             open(keep, "w").write("\n".join(lines) + "\n")
             v.report("rules/trace-rejected", info, {"trace": keep, "cmd": "cd spec && TRACE=%s tlc -workers 1 -config TraceProxy.cfg TraceProxy.tla" % keep})
+    # decisions under a stream of replacements between two long lists (wide window, no interleaving search): ProxyObs
+    padl = [("udp", "deny")] * 40
+    l7 = [dict(target=tg, **({"filter": FTXT[f]} if f != "none" else {})) for f, tg in padl + [("none", "A")]]
+    l8 = [dict(target=tg, **({"filter": FTXT[f]} if f != "none" else {})) for f, tg in [("none", "B")] + padl + [("none", "deny")]]
+    mix_reqs = 0
+    for t in range(3 if thorough else 2):
+        case = {"connectors": CONNECTORS, "reqs": reqs, "slots": 4, "per_slot": 1500 if thorough else 600, "lists": [l7] + [[l8, l7][k % 2] for k in range(400)]}
+        cp = os.path.join(wd, "mix_%d.json" % t)
+        json.dump(case, open(cp, "w"))
+        rc, out, err = vlib.vh(["rules-stress", cp], timeout=600)
+        if rc != 0:
+            raise vlib.ToolError("rules-stress (mix) failed: " + err)
+        recs = []
+        for x in out.splitlines():
+            if not x.strip():
+                continue
+            e = json.loads(x)
+            if e.get("ev") == "req_end" and reqs[e["req"] - 1]["feature"] == "TcpForward":
+                recs.append({"req": e["req"], "decided": e["invoked"] if e["invoked"] != "none" else "refused"})
+        mix_reqs += len(recs)
+        op = os.path.join(wd, "mix_obs_%d.ndjson" % t)
+        vlib.write_ndjson(op, recs)
+        g = vlib.tlc_must_pass(vlib.run_tlc("ProxyObs", "ProxyObs.cfg", workers=1, timeout=600, env_extra={"OBS": op}, name="ProxyObs"), "ProxyObs")
+        if g.distinct < len(recs):
+            raise vlib.ToolError("ProxyObs did not visit every record")
+        for c in g.cases[:3]:
+            v.report("rules/decided-by-a-mixture-of-two-lists", {"request": reqs[c["rec"]["req"] - 1], "decided": c["rec"]["decided"], "either_list_alone_gives": c["allowed"]},
+                     {"driver": "vh rules-stress", "case_file": cp})
     ev = vlib.evidence(PID, tier, "model_checking", {
         "states": mc.distinct, "transitions": mc.generated, "traces_validated_against_impl": len(cases) + ntr,
         "samples": [{"history": [[x["fid"] + ">" + x["target"] for x in l] for l in hist[len(hist) // 2]["lists"]],
@@ -182,7 +212,7 @@ def run(tier, t0):
                 "concurrent deciders; every history of up to 3 posts replayed through the configuration path / the POST /rules code path with "
                 "4 probe requests after each post and a GET->POST round trip; stress logs (deciders + poster on a multi-thread runtime) "
                 "validated by TraceProxy with the spec's own internal steps" % (3 if thorough else 2),
-        "histories": len(cases), "posts": nposts, "http_api_posts": bb_posts, "http_api_probes": bb_probes, "stress_traces": ntr, "stress_traces_accepted": accepted, "stress_events": events,
+        "histories": len(cases), "posts": nposts, "http_api_posts": bb_posts, "http_api_probes": bb_probes, "stress_traces": ntr, "stress_traces_accepted": accepted, "stress_events": events, "requests_under_replacement_stream": mix_reqs,
         "exhaustive": True, "checker_cmd": mc.cmd,
     }, ["the histories run twice: in-process on set_rules, and through POST /api/rules of a real process (connector chosen = connect_begin event)",
         "event order = order of acquisition of the harness' log mutex immediately before/after each call"])
